@@ -139,6 +139,13 @@ def print_axioms(module, theorems):
     return res, out
 
 
+def leanchecker(module):
+    """re-check the compiled module (and what it imports) with the toolchain's independent checker"""
+    with FileLock('lake'):
+        r = sh(['lake', 'env', 'leanchecker', module], cwd=LEAN, timeout=3000)
+    return r.returncode == 0, (r.stdout + r.stderr)
+
+
 def classify_axioms(axs):
     """split into (standard, bv_decide native, other)"""
     std, bv, other = [], [], []
